@@ -192,6 +192,24 @@ def rule_entry(prog, rep):
                                 (_outermost_def(mod.tree, c2) is not None and _outermost_def(mod.tree, c2).name in PRIVATE)
                                 for c2 in sites):
                             ok = True
+                    if not ok and not encl_cls and fn2.name.startswith("_") and any(x is fn2 for x in mod.tree.body):
+                        # a private module-level helper standing for a closure (bound with functools.partial): it runs
+                        # where it is referenced - allowed iff every reference is inside a private core
+                        refs = [n2 for n2 in ast.walk(mod.tree) if isinstance(n2, ast.Name) and n2.id == fn2.name
+                                and isinstance(n2.ctx, ast.Load)]
+                        def private_core_like(d):
+                            if d is None:
+                                return False
+                            if d.name in PRIVATE:
+                                return True
+                            # a private method of a distribution class (called from the cores, on the unwrapped self;
+                            # what the public methods do is pinned by the public-lift comparison)
+                            owners = [cn for cn in ast.walk(mod.tree) if isinstance(cn, ast.ClassDef) and any(x is d for x in cn.body)]
+                            ci2 = prog.classes.get(f"{mod.name}.{owners[0].name}") if owners else None
+                            return bool(ci2 is not None and d.name.startswith("_") and not d.name.startswith("__")
+                                        and (prog.is_subclass(ci2, DIST) or ci2.qualname == DIST))
+                        if refs and all(private_core_like(_outermost_def(mod.tree, n2)) for n2 in refs):
+                            ok = True
                     if fn2.name in PUBLIC:
                         ok = isinstance(node.value, ast.Name) and node.value.id == "self"
                     if fn2.name in PRIVATE:
